@@ -106,6 +106,39 @@ def delegate_checks(ctx):
                         ctx.violation(sc, "AutoETS(%s) gives %s, statsmodels ETSModel %s" % (o, list(p.values), want))
                     else:
                         n_ok += 1
+    # AutoETS(auto=True): the reported model is the candidate with the least information criterion among the
+    # documented candidate set (non-seasonal: error x trend x damped), each fitted by statsmodels with its own options
+    lvl = 100 - 60 * 0.75 ** t          # a trend that levels off: damped candidates matter
+    auto_series = [lvl + rng.rand(n) * 0.5, series[0]]
+    for si, yv in enumerate(auto_series):
+        for ic in (("aic",) if ctx.quick else ("aic", "bic", "aicc")):
+            ctx.evaluations += 1
+            sc = {"delegate": "AutoETS(auto=True)", "ic": ic, "series": si}
+            try:
+                y = pd.Series(yv)
+                f = AutoETS(auto=True, information_criterion=ic).fit(y)
+                p = f.predict([1, 2, 5])
+                cands = []
+                for error in ("add", "mul"):
+                    for trend in ("add", None):
+                        for damped in (True, False):
+                            if trend is None and damped:
+                                continue
+                            ref = ETSModel(y, error=error, trend=trend, damped_trend=damped, seasonal=None,
+                                           seasonal_periods=1).fit(disp=False)
+                            cands.append((float(getattr(ref, ic)), (error, trend, damped), ref))
+                best = min(cands, key=lambda c: c[0])
+                full = best[2].predict(start=n, end=n + 4)
+                want = [float(full.iloc[h - 1]) for h in (1, 2, 5)]
+                got_ic = float(getattr(f._fitted_forecaster, ic))
+            except Exception as e:
+                ctx.violation(sc, "delegate crash %s: %s" % (type(e).__name__, str(e)[:120]))
+                continue
+            if not np.isclose(got_ic, best[0], rtol=1e-6, atol=1e-6) or not np.allclose(p.values, want, rtol=1e-5, atol=1e-5):
+                ctx.violation(sc, "AutoETS(auto=True, %s) reports a model with %s = %.6f and forecasts %s; the best candidate %s "
+                                  "has %.6f and forecasts %s" % (ic, ic, got_ic, list(p.values), best[1], best[0], want))
+            else:
+                n_ok += 1
     ctx.notes.append("statsmodels delegation comparisons passed: %d" % n_ok)
 
 
